@@ -36,7 +36,7 @@ pub(crate) fn any_request_packet_opt(with_option_and_payload: bool) -> (Packet, 
 //@ bounds=first header byte: all 256 (4 versions x 4 types x any TKL nibble); code: all 256; message id: all 65536; token length 0..8 with symbolic bytes; one option with symbolic number and value; one payload byte
 //@ what=response prepared iff CON/NON; ACK for CON, NON for NON; version 1; same message id; same token byte for byte; 2.05; no options; empty payload; from_packet wires message/response/source
 #[kani::proof]
-#[kani::unwind(10)]
+#[kani::unwind(6)]
 #[kani::stub(core::fmt::write, crate::verif_harness::stub_write)]
 fn c07_new_response() {
     let (p, b0, code, id, tok, tl) = any_request_packet();
